@@ -160,4 +160,25 @@ theorem frames_of_pesStream (bs : Bytes) (ps : List Pes) (h : pesStream bs = som
       (by simpa [List.map_map, Function.comp_def] using hsep)
     exact ⟨fsEnd, har, fun _ => hend⟩
 
+/-- the same from any context at a packet boundary that is at a frame start (`new_frame` set: after
+`vbi_dvb_demux_reset`, after a discarded frame), whatever stale lines, counters and PTS it holds -/
+theorem frames_of_pesStream_from (fs : FS) (hnf : fs.newFrame = true) (bs : Bytes) (ps : List Pes)
+    (h : pesStream bs = some ps) (hb : ∀ b ∈ bs, b < 256) (hsep : Sep (ps.map (·.lines))) (hne : ps ≠ []) :
+    ∃ fsEnd, arun cfg { skip := 0, lookahead := 48, fs := fs } bs
+        = { core := { skip := 0, lookahead := 48, fs := fsEnd }, pend := [], frames := ps.dropLast.map outOf,
+            stop := none }
+      ∧ Holds fsEnd (ps.getLast hne).pts (ps.getLast hne).lines := by
+  obtain ⟨pks, h1, h2, h3⟩ := pesStreamF_inv _ bs ps h
+  subst h2; subst h3
+  cases pks with
+  | nil => exact absurd rfl hne
+  | cons x pks =>
+    have hb' : ∀ y ∈ x :: pks, ∀ b ∈ y.1, b < 256 := by
+      intro y hy b hbm
+      apply hb
+      rw [List.mem_flatten]
+      exact ⟨y.1, List.mem_map.mpr ⟨y, hy, rfl⟩, hbm⟩
+    exact arun_stream_start (cfg := cfg) x pks fs hnf h1 hb'
+      (by simpa [List.map_map, Function.comp_def] using hsep)
+
 end Zvbi.Demux
